@@ -205,10 +205,15 @@ def corr_formulas(chk, r, n):
             chk.corr_case("tmc_formula", False, case, dict(case, py_error=f"{type(e).__name__}: {e}"[:300]), "py-error")
             continue
         idx = drv.add(f"tmcval {kind} {MODES[mode]} {q(x)} {q(Q2)} {q(MP * MP)}")
-        # the loop of _convolve_FX on exact rationals (h2 weights, F_j = j + 1)
-        w = kw["h2_ker"]
-        cidx = drv.add(f"convfx {N} " + " ".join(q(g) for g in grid) + f" {q(xi)} " + " ".join(f"{q(b)} {q(wj)} {q(float(j + 1))}" for j, (b, wj) in enumerate(zip(below, w))))
-        pend.append((case, py, idx, cidx, N))
+        # the loop of _convolve_FX: which basis functions it may skip is decided by the *model's*
+        # is_below_x (Model/Interp.lean, proved to imply a vanishing weight), the weights are the
+        # independent integrals of the published integrand (no early exit): the real loop must give
+        # the same sum entry by entry
+        tg = [float(v) for v in interp.xgrid.grid]
+        txi = math.log(xi) if is_log else xi
+        bidx = drv.add(f"below {N} {degree} " + " ".join(q(v) for v in tg) + f" {q(txi)}")
+        py["w_pub"] = {nm: published_weights(interp, xi, nm).tolist() for nm in ("h2", "g2", "k2")} if mode != 2 else {}
+        pend.append((case, py, idx, bidx, N))
     lines = drv.run()
     for case, py, idx, cidx, N in pend:
         toks = lines[idx].split()
@@ -243,11 +248,33 @@ def corr_formulas(chk, r, n):
         ok = bad is None and diff <= 1e-10 * scale and py["outx"] == (case["x"], case["Q2"])
         det = None if ok else dict(case, problem=bad, maxdiff=diff, model=expected.tolist(), py=py["vec"].tolist(), result_kinematics=py["outx"])
         chk.corr_case("tmc_formula", ok, dict(case=case, maxdiff=diff), det, feat)
-        # _convolve_FX loop
-        m = lines[cidx]
-        real = sum((0.0 if b else wj) * (j + 1) for j, (b, wj) in enumerate(zip(py["below"], py["kw"]["h2_ker"])))
-        okc = m != "rejected" and abs(common.unq(m) - real) <= 1e-12 * max(1.0, abs(real))
-        chk.corr_case("convolve_FX_loop", okc, None, None if okc else dict(case, model=m, py=real), "inside")
+        # _convolve_FX loop: per node, (entry of the real result) / (coefficient of the h2-type symbol)
+        # against (0 if the model says `below` else the independent weight)
+        convs = [(toks[4 + 2 * e].split(":"), corr_kernels.bits_to_float(toks[5 + 2 * e])) for e in range(ne) if toks[4 + 2 * e].split(":")[0] == "conv" and toks[5 + 2 * e].isdigit()]
+        if convs:
+            mb = [v == "1" for v in lines[cidx].split()]
+            okc, worst_case = len(mb) == N, None
+            for K in sorted({p_[1] for p_, _ in convs}):
+                base = KINDS.index(K) * (N + 1)
+                model_e = np.zeros(N)
+                for p_, c in convs:
+                    if p_[1] == K:
+                        wpub = py["w_pub"][SYM_OF_KERNEL[p_[2]]]
+                        model_e += c * np.array([0.0 if b else wj for b, wj in zip(mb, wpub)]) if len(mb) == N else 0.0
+                real_e = np.array([float(py["vec"][base + 1 + j]) for j in range(N)])
+                # when xi itself is a grid node the shifted request shares that node's marker
+                cand = [j for j, g in enumerate(case["grid"]) if g == py["xi"]]
+                if cand:
+                    for e in range(ne):
+                        ps = toks[4 + 2 * e].split(":")
+                        if ps[0] == "shift" and ps[1] == K and toks[5 + 2 * e].isdigit():
+                            real_e[cand[0]] -= corr_kernels.bits_to_float(toks[5 + 2 * e])
+                sc = max(1e-300, float(np.abs(model_e).max()), 1.0)
+                dd = float(np.abs(real_e - model_e).max())
+                if dd > 2e-7 * sc:
+                    okc = False
+                    worst_case = dict(structure_function=K, model_below=mb, code_below=py["below"], model_entries=model_e.tolist(), code_entries=real_e.tolist())
+            chk.corr_case("convolve_FX_loop", okc, None, None if okc else dict(case, xi=py["xi"], **(worst_case or {})), "skipped" if any(mb) else "none-skipped")
 
 
 def corr_rejection(chk, r, n):
